@@ -250,17 +250,23 @@ def run_symbolic_loop(it, coll, bind_target, run_body, body_stmts, env, f, ordin
         for t in targets:
             entry_vars.pop(t, None)
             env.vars[t] = Poison()
-        modified = detect_modified(ctx, entry, entry_vars, results)
+        excl = tuple(getattr(spec, "sorts", {}) or ()) if spec is not None else ()
+        accs = find_accumulators(entry, entry_vars, results, body_stmts, excl)
+        modified = detect_modified(ctx, entry, entry_vars, results, accs)
         if modified["any"]:
             if spec is None:
                 raise Unsupported(f"stateful loop #{ordinal} in {qn} needs an invariant "
                                   f"(modified: {modified['summary']})")
-            return stateful_loop(it, coll, k, n, spec, modified, body_once, env, entry, entry_vars,
-                                 f, ordinal, collect)
+            it._acc_exclude = excl
+            try:
+                return stateful_loop(it, coll, k, n, spec, modified, body_once, env, entry, entry_vars,
+                                     f, ordinal, collect, body_stmts)
+            finally:
+                it._acc_exclude = ()
     finally:
         ctx.loop_vars.pop()
     ctx.restore(entry)
-    return finish_loop(it, k, n, results, env, entry_vars, collect, base_extra=1)
+    return finish_loop(it, k, n, results, env, entry_vars, collect, base_extra=1, entry=entry, body_stmts=body_stmts)
 
 
 def store_chain(t, base):
@@ -276,7 +282,84 @@ def store_chain(t, base):
     return chain
 
 
-def detect_modified(ctx, entry, entry_vars, results):
+def appended_tail(old, new):
+    """new == old + [appended...] (append-only change of a list)?  -> list of appended values, or None"""
+    from .interp import PyList
+    if new is old:
+        return []
+    if isinstance(old, PyList) and isinstance(new, PyList) and len(new.items) >= len(old.items) \
+            and all(a is b for a, b in zip(old.items, new.items)):
+        return list(new.items[len(old.items):])
+    parts = getattr(new, "parts", None)
+    if parts is not None and isinstance(parts[1], PyList):
+        head = appended_tail(old, parts[0])
+        if head is not None:
+            return head + list(parts[1].items)
+    return None
+
+
+def find_accumulators(entry, entry_vars, results, body_stmts, exclude=()):
+    """Local lists that the loop body only appends to (and never reads): {store id: [(conds, appended values)]}.
+    Appending to such a list is the same as yielding into it."""
+    import ast
+    from .interp import walk_no_nested
+    _, heap0, store0, printed0, _ = entry
+    names = {}
+    for nm, val in entry_vars.items():
+        if isinstance(val, MList) and val.id in store0:
+            names.setdefault(val.id, []).append(nm)
+    out = {}
+    for sid, nms in names.items():
+        if len(nms) != 1 or not body_stmts:
+            continue
+        nm = nms[0]
+        if nm in exclude:
+            continue          # the contract's invariant describes this list explicitly
+        ok = True
+        for st in body_stmts:
+            for node in walk_no_nested(st):
+                if isinstance(node, ast.Name) and node.id == nm:
+                    ok = False          # any mention other than `<nm>.append(...)` (checked below) disqualifies
+            for node in ast.walk(st):
+                pass
+        # allow exactly the pattern  nm.append(expr)  as an expression statement
+        def only_appends(stmts):
+            good = True
+            for st in stmts:
+                for node in walk_no_nested(st):
+                    if isinstance(node, ast.Name) and node.id == nm:
+                        good = False
+                for node in walk_no_nested(st):
+                    if (isinstance(node, ast.Expr) and isinstance(node.value, ast.Call) and isinstance(node.value.func, ast.Attribute)
+                            and node.value.func.attr == "append" and isinstance(node.value.func.value, ast.Name)
+                            and node.value.func.value.id == nm):
+                        # this mention is fine if nm occurs nowhere in the argument
+                        if not any(isinstance(x, ast.Name) and x.id == nm for a in node.value.args for x in ast.walk(a)):
+                            good = good or True
+            return good
+        mentions = [node for st in body_stmts for node in walk_no_nested(st) if isinstance(node, ast.Name) and node.id == nm]
+        appends = [node for st in body_stmts for node in walk_no_nested(st)
+                   if isinstance(node, ast.Call) and isinstance(node.func, ast.Attribute) and node.func.attr == "append"
+                   and isinstance(node.func.value, ast.Name) and node.func.value.id == nm]
+        if len(mentions) != len(appends) or not appends:
+            continue
+        per_path = []
+        good = True
+        for conds, kind, val, full in results:
+            if kind != "ok":
+                continue
+            new = full[2].get(sid, {}).get("seq")
+            tail = appended_tail(store0[sid]["seq"], new) if new is not None else None
+            if tail is None:
+                good = False
+                break
+            per_path.append((conds, tail))
+        if good and any(t for _, t in per_path):
+            out[sid] = per_path
+    return out
+
+
+def detect_modified(ctx, entry, entry_vars, results, accumulators=()):
     _, heap0, store0, printed0, _ = entry
     vars_mod, heap_mod, store_mod = set(), set(), set()
     printed = False
@@ -301,6 +384,8 @@ def detect_modified(ctx, entry, entry_vars, results):
                         for a, av in v.items():
                             if a not in d0["attrs"] or not same(d0["attrs"][a], av):
                                 store_mod.add((sid, "attrs", a))
+                    elif sid in accumulators and fld == "seq":
+                        continue
                     elif fld not in d0 or not same(d0[fld], v):
                         store_mod.add((sid, fld))
         if printed1 != printed0:
@@ -315,7 +400,30 @@ def detect_modified(ctx, entry, entry_vars, results):
             "any": bool(vars_mod or heap_mod or store_mod or printed), "summary": summary}
 
 
-def finish_loop(it, k, n, results, env, entry_vars, collect, base_extra=0, after_state=None):
+def build_segment(ctx, k, n, per_path):
+    """[value(k) for k in range(n) if guard(k)] from the per-path outcomes [(conds, [values])] of the arbitrary iteration"""
+    for conds, ys in per_path:
+        if len(ys) > 1:
+            raise Unsupported("more than one yield/append per iteration of a symbolic loop")
+    if not any(ys for _, ys in per_path):
+        return None
+    yielding = [(z3.And(*c) if c else z3.BoolVal(True), ys[0]) for c, ys in per_path if ys]
+    every = all(ys for _, ys in per_path)
+    proto = merge_paths(yielding)
+    sort = proto.sort() if is_z3(proto) else None
+
+    def value(j):
+        return subst(proto, k, j)
+    if every:
+        return Seq(n, value, sort, note="map")
+    gproto = z3.simplify(z3.Or(*[c for c, _ in yielding]))
+
+    def guard(j):
+        return subst(gproto, k, j)
+    return filter_seq(ctx, n, guard, value, sort)
+
+
+def finish_loop(it, k, n, results, env, entry_vars, collect, base_extra=0, after_state=None, entry=None, body_stmts=None):
     """Generalise the outcomes of the arbitrary iteration: raise-paths, facts, yields."""
     ctx = it.ctx
     rng = in_range(k, n)
@@ -346,6 +454,14 @@ def finish_loop(it, k, n, results, env, entry_vars, collect, base_extra=0, after
         for name in bvars:
             if name not in entry_vars and name in env.vars:
                 pass
+    # 3b. append-only accumulators: the appended values form a segment appended to the list
+    if entry is not None:
+        accs = find_accumulators(entry, entry_vars, results, body_stmts, getattr(it, "_acc_exclude", ()))
+        for sid, per_path in accs.items():
+            seg = build_segment(ctx, k, n, per_path)
+            if seg is not None:
+                from .models import seq_concat
+                ctx.store[sid]["seq"] = seq_concat(ctx.store[sid]["seq"], seg)
     if not collect:
         for conds, kind, val, full in oks:
             if val[1].segs:
@@ -357,26 +473,8 @@ def finish_loop(it, k, n, results, env, entry_vars, collect, base_extra=0, after
         out = val[1]
         if not out.is_concrete():
             raise Unsupported("nested symbolic yields inside a symbolic loop")
-        ys = out.concrete()
-        if len(ys) > 1:
-            raise Unsupported("more than one yield per iteration of a symbolic loop")
-        ylds.append((conds, ys))
-    if not any(ys for _, ys in ylds):
-        return None
-    yielding = [(z3.And(*c) if c else z3.BoolVal(True), ys[0]) for c, ys in ylds if ys]
-    every = all(ys for _, ys in ylds)
-    proto = merge_paths(yielding)
-    sort = proto.sort() if is_z3(proto) else None
-
-    def value(j):
-        return subst(proto, k, j)
-    if every:
-        return Seq(n, value, sort, note="map")
-    gproto = z3.simplify(z3.Or(*[c for c, _ in yielding]))
-
-    def guard(j):
-        return subst(gproto, k, j)
-    return filter_seq(ctx, n, guard, value, sort)
+        ylds.append((conds, out.concrete()))
+    return build_segment(ctx, k, n, ylds)
 
 
 def alloc_post_state(ctx, k, n, results):
@@ -424,7 +522,7 @@ def alloc_post_state(ctx, k, n, results):
     ctx.store[("newrefs",)] = {"refs": nr["refs"]}
 
 
-def stateful_loop(it, coll, k, n, spec, modified, body_once, env, entry, entry_vars, f, ordinal, collect):
+def stateful_loop(it, coll, k, n, spec, modified, body_once, env, entry, entry_vars, f, ordinal, collect, body_stmts=None):
     """Loop with loop-carried state, cut at the contract's invariant."""
     from .interp import Instance
     ctx = it.ctx
@@ -516,7 +614,7 @@ def stateful_loop(it, coll, k, n, spec, modified, body_once, env, entry, entry_v
         install_state(kterm=zint(n))
         # explicit instance at the exit state
         ctx.assumptions.append(conj(spec.inv(state(zint(n), dict(env.vars), dict(ctx.heap), ctx.store))))
-    seg = finish_loop(it, k, n, results, env, entry_vars, collect, after_state=after)
+    seg = finish_loop(it, k, n, results, env, entry_vars, collect, after_state=after, entry=entry, body_stmts=body_stmts)
     return seg
 
 
